@@ -82,7 +82,8 @@ def rule_arms(ctx: Ctx) -> None:
             okv = len(fin) == 1 and canon(fin[0].args[0]) == canon(_e(pos)) and len(tst) == 1 and _int_equivalent(tst[0], _e(edge)) and all(isinstance(x, (ast.Call, ast.Compare)) or (isinstance(x, ast.Constant) and x.value == 1) for x in factors)
         ctx.ob("C11.ARMS", CB, s, f"cross_support: arm {k} = {canon(val)[:110]}", okv and ok_cell, expected=want_val, detail="one-pixel minimum support when the neighbour exists and is valid; stored in its own slot of the examined pixel")
         init = [x for x in walk_no_nested(inner[0]) if isinstance(x, ast.Assign) and isinstance(x.targets[0], ast.Name) and x.targets[0].id == v and x.lineno < lp.lineno]
-        ctx.ob("C11.ARMS", CB, init[-1] if init else lp, f"cross_support: arm {k} scan variable starts at the pixel itself ({v} = {canon(init[-1].value) if init else '?'})", bool(init) and canon(init[-1].value) == p, expected=f"{v} = {p}", detail="when the loop does not run, the 'neighbour' read afterwards must be the pixel itself")
+        want_init = f"max({p} - 1, 0)" if direction < 0 else f"min({p} + 1, {n_p} - 1)"
+        ctx.ob("C11.ARMS", CB, init[-1] if init else lp, f"cross_support: arm {k} scan variable starts at the neighbour ({v} = {canon(init[-1].value) if init else '?'})", bool(init) and canon(init[-1].value) == canon(_e(want_init)), expected=f"{v} = {want_init}", detail="when the arm loop does not run (cbca_distance = 1) the one-pixel-minimum test `isfinite(image[neighbour])` reads this variable: it must designate the neighbour (clamped to the image; the edge factor zeroes the clamped case), not the pixel itself -- otherwise the minimum arm of 1 reaches onto a masked neighbour and the masked pixel is counted in the support region")
     ctx.ob("C11.ARMS", CB, f, f"cross_support fills the four slots {sorted(seen)}", seen == {0, 1, 2, 3}, expected="[0, 1, 2, 3] = left, right, top, bottom")
     gate = [x for x in walk_no_nested(inner[0]) if isinstance(x, ast.If) and "isfinite" in src(x.test) and len(enclosing_loops(x)) == 2]
     ctx.ob("C11.ARMS", CB, gate[0] if gate else f, "cross_support: arms computed only for valid (finite) pixels", bool(gate) and canon(gate[0].test) == f"np.isfinite({img}[({a0}, {a1})])", expected=f"if np.isfinite({img}[{a0}, {a1}])", detail="masked pixels (inf) have empty arms: an arm stops at a masked pixel because the difference with it is infinite")
@@ -323,6 +324,7 @@ MUTANTS = [
     {"id": "memoised-supports", "edits": [(CB, "        cross_left, cross_right = self.computes_cross_supports(img_left, img_right, cv)\n", "        key = (img_left[\"im\"].shape, img_right[\"im\"].shape)\n        if getattr(self, \"_supports_key\", None) != key:\n            self._supports = self.computes_cross_supports(img_left, img_right, cv)\n            self._supports_key = key\n        cross_left, cross_right = self._supports\n")]},
     {"id": "mask-left-in-place", "file": CB, "old": 'left_masked = np.copy(img_left["im"].data)', "new": 'left_masked = img_left["im"].data'},
     {"id": "no-median-on-right", "file": CB, "old": "            right_masked = filter_.median_filter(right_masked)  # type: ignore\n", "new": ""},
-    {"id": "eq-reorder-arm-blocks", "kind": "equiv", "file": CB, "old": "                left_len = 0\n                left = row\n", "new": "                left = row\n                left_len = 0\n"},
+    {"id": "eq-reorder-arm-blocks", "kind": "equiv", "file": CB, "old": "                left_len = 0\n                left = max(row - 1, 0)\n", "new": "                left = max(row - 1, 0)\n                left_len = 0\n"},
+    {"id": "arm-scan-variable-preset-to-the-pixel-itself", "file": CB, "old": "                left = max(row - 1, 0)\n", "new": "                left = row\n"},
     {"id": "eq-edge-test-rewritten", "kind": "equiv", "file": CB, "old": "1 * (row >= 1) * np.isfinite(image[col, left])", "new": "1 * (row > 0) * np.isfinite(image[col, left])"},
 ]
